@@ -1,0 +1,11 @@
+//go:build !verif
+
+package pdf
+
+import "sync"
+
+func verifSched(point string) {}
+
+func verifSchedWait(point string, done <-chan struct{}) {}
+
+func verifLocked(mu *sync.Mutex, where string) {}
